@@ -5,11 +5,15 @@
     Model/CreateFs.v's path algebra). Proofs: Proofs/CreateVerifyProofs.v, Proofs/PathsProofs.v;
     instances: Proofs/CreateVerifyExamples.v.
     H = SHA-1, MD5, the hasher's read schedule csch and the verifier's read schedule vsch are
-    universally quantified; so are the tree, the walker's selection, the piece length, --md5. *)
+    universally quantified; so are the tree, the walker's selection, the piece length, --md5.
+    End to end (last part): Model/EndToEnd.v, Proofs/EndToEndProofs.v, Proofs/EndToEndExamples.v
+    compose the above with C05's metainfo assembly (Model/Metainfo.v), C04's strict bencode
+    (Model/Bencode.v) and C03's loader (Model/Verify.v [load]). *)
 From Coq Require Import NArith List Bool.
 From Imdl Require Import Base.Chunks Model.Bencode Model.Fs Model.Verify Model.CreateVerify Model.Paths
      Proofs.FsProofs Proofs.VerifyProofs Proofs.CreateVerifyProofs Proofs.PathsProofs Proofs.CreateVerifyExamples.
-From Imdl Require Model.Hasher Model.CreateFs.
+From Imdl Require Import Model.EndToEnd Proofs.EndToEndProofs Proofs.EndToEndExamples.
+From Imdl Require Model.Hasher Model.CreateFs Model.Schema Model.Metainfo Model.Picker Proofs.MetainfoProofs.
 Import ListNotations.
 Local Open Scope N_scope.
 
@@ -259,3 +263,278 @@ Print Assumptions c02_ex_collision_free.
 Print Assumptions c02_ex_history.
 Print Assumptions c02_ex_default_locations.
 Print Assumptions c02_ex_paths_hyp.
+
+(** * end to end
+
+    So far [create_t] yields the verifier's [torrent] record directly. In the real program the two
+    commands are connected by a file: create assembles the metainfo value (C05: [Metainfo.build]
+    from the command line [opts] and the [content] the walker and the hasher hand over), writes
+    its bencoding (C04: [encode]), and verify reads the bytes back through its typed loader (C03:
+    [load]). The statements below close that gap.
+
+    [metainfo_of o md5 t] is the C05 input that corresponds to a creation result [t]: the name,
+    the piece length, the files in listed order with their lengths and MD5s (16 raw bytes in [t],
+    32 lower-case hex digits in the file), the piece string = the 20-byte digests one after the
+    other; every other option of the command line [o] untouched. [agrees o md5 t] says the same of
+    a command line as it is (no --name: the input's own name; no --piece-length: the picker).
+
+    Hypotheses, all explicit:
+      - of the digests (Section hypotheses): SHA-1 yields 20 bytes, MD5 yields 16, and MD5's are
+        bytes ([byte] is [N] in the models; hex printing needs < 256);
+      - C05's side conditions [opts_ok] / [input_ok] (every integer written fits bendy's i64);
+      - the name and every selected component are valid UTF-8 (create refuses others before
+        hashing; the composed model leaves names open), components plain (as in create_then_verify).
+    These are exactly what [load] imposes: the examples [c02_ex_needs_*] drop one at a time and the
+    loader refuses the bytes. *)
+
+(** the layers model one thing differently in four places; each has a conversion and a lemma *)
+Check dlookup_dget : forall k d, dlookup k d = Schema.dget k d.
+Theorem c02_e2e_same_lookup : forall k d, dlookup k d = Schema.dget k d.
+Proof. exact dlookup_dget. Qed.
+
+Check unhex_hex : forall d, Forall (fun x => x < 256) d -> unhex (hex d) = Some d.
+Theorem c02_e2e_unhex_hex : forall d, Forall (fun x => x < 256) d -> unhex (hex d) = Some d.
+Proof. exact unhex_hex. Qed.
+
+Check load_pieces_concat : forall ds,
+  forallb (fun d => Nat.eqb (length d) 20) ds = true -> load_pieces (Str (concat ds)) = Some ds.
+Theorem c02_e2e_pieces_cut_at_20 : forall ds,
+  forallb (fun d => Nat.eqb (length d) 20) ds = true -> load_pieces (Str (concat ds)) = Some ds.
+Proof. exact load_pieces_concat. Qed.
+
+(** the loader's fuel (2 * length + 2) suffices for every canonical value *)
+Check load_encode : forall v, wfb v = true -> load (encode v) = load_value v.
+Theorem c02_e2e_loader_fuel_suffices : forall v, wfb v = true -> load (encode v) = load_value v.
+Proof. exact load_encode. Qed.
+
+(** for ANY torrent record that satisfies the loader's demands ([torrent_ok], a boolean) and any
+    command line that agrees with it: what C05 assembles, serialised, loads back as that record *)
+Check built_bytes_load_back : forall norm host_canon git_suffix o md5 t v,
+  torrent_ok md5 t = true -> Metainfo.opts_ok o = true -> agrees o md5 t ->
+  Metainfo.build norm host_canon git_suffix o (content_of t) = Some v ->
+  load (encode v) = Some t.
+Theorem c02_built_bytes_load_back : forall norm host_canon git_suffix o md5 t v,
+  torrent_ok md5 t = true -> Metainfo.opts_ok o = true -> agrees o md5 t ->
+  Metainfo.build norm host_canon git_suffix o (content_of t) = Some v ->
+  load (encode v) = Some t.
+Proof. exact built_bytes_load_back. Qed.
+
+(** every creation result satisfies the loader's demands *)
+Check created_torrent_ok : forall H MD5,
+  (forall b, length (H b) = 20%nat) -> (forall b, length (MD5 b) = 16%nat) ->
+  (forall b, Forall (fun x => x < 256) (MD5 b)) ->
+  forall md5 p name csch src sel t,
+  create_t H MD5 md5 p name csch src sel = Some t ->
+  utf8_ok name = true -> Forall plain_path sel -> Forall utf8_path sel ->
+  Metainfo.input_ok (input_of t) = true ->
+  torrent_ok md5 t = true.
+Theorem c02_created_torrent_ok : forall H MD5,
+  (forall b, length (H b) = 20%nat) -> (forall b, length (MD5 b) = 16%nat) ->
+  (forall b, Forall (fun x => x < 256) (MD5 b)) ->
+  forall md5 p name csch src sel t,
+  create_t H MD5 md5 p name csch src sel = Some t ->
+  utf8_ok name = true -> Forall plain_path sel -> Forall utf8_path sel ->
+  Metainfo.input_ok (input_of t) = true ->
+  torrent_ok md5 t = true.
+Proof. exact created_torrent_ok. Qed.
+
+(** created_bytes_load_back: for every tree, selection, piece length, --md5, read schedule and
+    every command line that agrees, serialisation succeeds and the bytes load back as the torrent
+    with the same name, the same piece length, the piece string cut at 20, and the same mode
+    (single: length + md5; multi: every file with path, length, md5) - the very [t] that
+    create_then_verify is about *)
+Check created_bytes_load_back : forall H MD5,
+  (forall b, length (H b) = 20%nat) -> (forall b, length (MD5 b) = 16%nat) ->
+  (forall b, Forall (fun x => x < 256) (MD5 b)) ->
+  forall norm host_canon git_suffix o md5 p name csch src sel t,
+  create_t H MD5 md5 p name csch src sel = Some t ->
+  utf8_ok name = true -> Forall plain_path sel -> Forall utf8_path sel ->
+  Metainfo.input_ok (input_of t) = true -> Metainfo.opts_ok o = true -> agrees o md5 t ->
+  exists v, Metainfo.build norm host_canon git_suffix o (content_of t) = Some v /\
+            load (encode v) = Some t /\
+            t = {| tname := name; tplen := p;
+                   tpieces := chunks 20 (Metainfo.c_pieces (content_of t)); tmode := tmode t |}.
+Theorem c02_created_bytes_load_back : forall H MD5,
+  (forall b, length (H b) = 20%nat) -> (forall b, length (MD5 b) = 16%nat) ->
+  (forall b, Forall (fun x => x < 256) (MD5 b)) ->
+  forall norm host_canon git_suffix o md5 p name csch src sel t,
+  create_t H MD5 md5 p name csch src sel = Some t ->
+  utf8_ok name = true -> Forall plain_path sel -> Forall utf8_path sel ->
+  Metainfo.input_ok (input_of t) = true -> Metainfo.opts_ok o = true -> agrees o md5 t ->
+  exists v, Metainfo.build norm host_canon git_suffix o (content_of t) = Some v /\
+            load (encode v) = Some t /\
+            t = {| tname := name; tplen := p;
+                   tpieces := chunks 20 (Metainfo.c_pieces (content_of t)); tmode := tmode t |}.
+Proof. exact created_bytes_load_back. Qed.
+
+(** the same for the pair [metainfo_of] makes out of ANY command line (every metainfo option set:
+    announce, tiers, comment, source, nodes, private, update-url, created-by, date, the allows) *)
+Theorem c02_created_bytes_load_back_of : forall H MD5,
+  (forall b, length (H b) = 20%nat) -> (forall b, length (MD5 b) = 16%nat) ->
+  (forall b, Forall (fun x => x < 256) (MD5 b)) ->
+  forall norm host_canon git_suffix o md5 p name csch src sel t,
+  create_t H MD5 md5 p name csch src sel = Some t ->
+  utf8_ok name = true -> Forall plain_path sel -> Forall utf8_path sel ->
+  Metainfo.input_ok (input_of t) = true -> Metainfo.opts_ok o = true ->
+  exists v, Metainfo.build norm host_canon git_suffix (fst (metainfo_of o md5 t)) (snd (metainfo_of o md5 t)) = Some v /\
+            load (encode v) = Some t.
+Proof. exact created_bytes_load_back_of. Qed.
+
+(** ... and for the bytes Create::run writes once its own checks (tier URLs, private without
+    tracker, piece length zero / uneven / small / u32) have passed *)
+Theorem c02_written_bytes_load_back : forall H MD5,
+  (forall b, length (H b) = 20%nat) -> (forall b, length (MD5 b) = 16%nat) ->
+  (forall b, Forall (fun x => x < 256) (MD5 b)) ->
+  forall norm host_canon git_suffix url_ok o md5 p name csch src sel t tb,
+  create_t H MD5 md5 p name csch src sel = Some t ->
+  utf8_ok name = true -> Forall plain_path sel -> Forall utf8_path sel ->
+  Metainfo.input_ok (input_of t) = true -> Metainfo.opts_ok o = true -> agrees o md5 t ->
+  Metainfo.create_bytes norm url_ok host_canon git_suffix o (content_of t) = Some tb ->
+  load tb = Some t.
+Proof. exact created_written_bytes_load_back. Qed.
+
+(** a command line without --name and --piece-length agrees when the hasher got the input's own
+    file name and the picker's choice for the total size *)
+Theorem c02_agrees_defaults : forall o md5 t,
+  Metainfo.o_name o = None -> Metainfo.o_piece_length o = None -> Metainfo.o_md5 o = md5 ->
+  tplen t = Picker.pick (Metainfo.total_size (input_of t)) -> agrees o md5 t.
+Proof. exact agrees_defaults. Qed.
+
+(** c02_end_to_end: verifying THE BYTES create wrote (through [load]) against the unmodified input
+    succeeds, and on any later filesystem the verdict tracks content equality - same
+    [collision_free] hypothesis as verify_tracks_content, nothing else added about SHA-1 *)
+Check end_to_end : forall H MD5,
+  (forall b, length (H b) = 20%nat) -> (forall b, length (MD5 b) = 16%nat) ->
+  (forall b, Forall (fun x => x < 256) (MD5 b)) ->
+  forall norm host_canon git_suffix o md5 p name csch vsch fs root src sel t,
+  resolve fs root = Some src -> Forall plain_path sel -> Forall utf8_path sel -> utf8_ok name = true ->
+  create_t H MD5 md5 p name csch src sel = Some t ->
+  Metainfo.input_ok (input_of t) = true -> Metainfo.opts_ok o = true -> agrees o md5 t ->
+  exists v c,
+    Metainfo.build norm host_canon git_suffix o (content_of t) = Some v /\ gather src sel = Some c /\
+    verify_bytes H MD5 vsch fs root (encode v) = Some true /\
+    forall fs',
+      collision_free H p (map snd (listing_of c)) (map (content fs') (entries root t)) ->
+      (verify_bytes H MD5 vsch fs' root (encode v) = Some true <-> Forall (holds fs' root) (listing_of c)).
+Theorem c02_end_to_end : forall H MD5,
+  (forall b, length (H b) = 20%nat) -> (forall b, length (MD5 b) = 16%nat) ->
+  (forall b, Forall (fun x => x < 256) (MD5 b)) ->
+  forall norm host_canon git_suffix o md5 p name csch vsch fs root src sel t,
+  resolve fs root = Some src -> Forall plain_path sel -> Forall utf8_path sel -> utf8_ok name = true ->
+  create_t H MD5 md5 p name csch src sel = Some t ->
+  Metainfo.input_ok (input_of t) = true -> Metainfo.opts_ok o = true -> agrees o md5 t ->
+  exists v c,
+    Metainfo.build norm host_canon git_suffix o (content_of t) = Some v /\ gather src sel = Some c /\
+    verify_bytes H MD5 vsch fs root (encode v) = Some true /\
+    forall fs',
+      collision_free H p (map snd (listing_of c)) (map (content fs') (entries root t)) ->
+      (verify_bytes H MD5 vsch fs' root (encode v) = Some true <-> Forall (holds fs' root) (listing_of c)).
+Proof. exact end_to_end. Qed.
+
+(** the whole command on those bytes: arguments clap accepts, a content root that resolves to
+    where create read: exit status 0 *)
+Check end_to_end_cmd : forall H MD5,
+  (forall b, length (H b) = 20%nat) -> (forall b, length (MD5 b) = 16%nat) ->
+  (forall b, Forall (fun x => x < 256) (MD5 b)) ->
+  forall norm host_canon git_suffix o md5 p name csch vsch fs root src sel t cwd cont base input,
+  resolve fs root = Some src -> Forall plain_path sel -> Forall utf8_path sel -> utf8_ok name = true ->
+  create_t H MD5 md5 p name csch src sel = Some t ->
+  Metainfo.input_ok (input_of t) = true -> Metainfo.opts_ok o = true -> agrees o md5 t ->
+  args_ok cont base input = true ->
+  env_resolve cwd (content_root cont base input name) = Some root ->
+  exists v, Metainfo.build norm host_canon git_suffix o (content_of t) = Some v /\
+            verify_cmd H MD5 vsch fs cwd cont base input (encode v) = Some Success.
+Theorem c02_end_to_end_cmd : forall H MD5,
+  (forall b, length (H b) = 20%nat) -> (forall b, length (MD5 b) = 16%nat) ->
+  (forall b, Forall (fun x => x < 256) (MD5 b)) ->
+  forall norm host_canon git_suffix o md5 p name csch vsch fs root src sel t cwd cont base input,
+  resolve fs root = Some src -> Forall plain_path sel -> Forall utf8_path sel -> utf8_ok name = true ->
+  create_t H MD5 md5 p name csch src sel = Some t ->
+  Metainfo.input_ok (input_of t) = true -> Metainfo.opts_ok o = true -> agrees o md5 t ->
+  args_ok cont base input = true ->
+  env_resolve cwd (content_root cont base input name) = Some root ->
+  exists v, Metainfo.build norm host_canon git_suffix o (content_of t) = Some v /\
+            verify_cmd H MD5 vsch fs cwd cont base input (encode v) = Some Success.
+Proof. exact end_to_end_cmd. Qed.
+
+(** instances: the digest hypotheses are satisfiable; so are the others, on a command line with
+    every option set; the outcome is not vacuous *)
+Example c02_ex_digest_hyps :
+  (forall b, length (ex_H b) = 20%nat) /\ (forall b, length (ex_MD5 b) = 16%nat) /\
+  (forall b, Forall (fun x => x < 256) (ex_MD5 b)).
+Proof. exact ex_digest_hyps. Qed.
+Example c02_ex_e2e_hyps :
+  resolve fs0 root0 = Some src0 /\ Forall plain_path sel0 /\ Forall utf8_path sel0 /\ utf8_ok IN = true /\
+  Metainfo.opts_ok MetainfoProofs.ex_opts = true /\
+  match e_t with
+  | Some t => Metainfo.input_ok (input_of t) = true /\ agrees (opts_of MetainfoProofs.ex_opts true t) true t /\
+              torrent_ok true t = true
+  | None => False
+  end.
+Proof. exact ex_e2e_hyps. Qed.
+Example c02_ex_e2e_load_back :
+  match e_t, e_bytes with
+  | Some t, Some tb =>
+      load tb = Some t /\
+      verify_bytes ex_H ex_MD5 vsch0 fs0 root0 tb = Some true /\
+      verify_bytes ex_H ex_MD5 vsch0 fs_flip root0 tb = Some false /\
+      verify_bytes ex_H ex_MD5 vsch0 fs_extra root0 tb = Some true
+  | _, _ => False
+  end.
+Proof. exact ex_e2e_load_back. Qed.
+Example c02_ex_e2e_defaults :
+  match create_t ex_H ex_MD5 true (Picker.pick 12) IN csch0 src0 sel0 with
+  | Some t => agrees MetainfoProofs.ex_opts true t
+  | None => False
+  end.
+Proof. exact ex_e2e_defaults. Qed.
+
+(** each hypothesis on names and digests is needed: without it creation still succeeds in the
+    model and the loader refuses the serialised bytes *)
+Example c02_ex_needs_utf8_name : exists t, load_back ex_H ex_MD5 [255] src0 sel0 = Some (t, None).
+Proof. exact ex_needs_utf8_name. Qed.
+Example c02_ex_needs_utf8_component :
+  exists t, load_back ex_H ex_MD5 IN (Dir [([255], File abcde)]) [[[255]]] = Some (t, None).
+Proof. exact ex_needs_utf8_component. Qed.
+Example c02_ex_needs_plain_component :
+  exists t, load_back ex_H ex_MD5 IN (Dir [([46; 46], File abcde)]) [[[46; 46]]] = Some (t, None).
+Proof. exact ex_needs_plain_component. Qed.
+Example c02_ex_needs_sha1_length : exists t, load_back idh ex_MD5 IN src0 sel0 = Some (t, None).
+Proof. exact ex_needs_sha1_length. Qed.
+Example c02_ex_needs_md5_length : exists t, load_back ex_H idh IN src0 sel0 = Some (t, None).
+Proof. exact ex_needs_md5_length. Qed.
+Example c02_ex_needs_md5_bytes :
+  exists t, load_back ex_H (fun _ => repeat 256 16) IN src0 sel0 = Some (t, None).
+Proof. exact ex_needs_md5_bytes. Qed.
+Example c02_ex_needs_i64_length :
+  let t := {| tname := IN; tplen := 4; tpieces := []; tmode := Single (2 ^ 63) None |} in
+  Metainfo.input_ok (input_of t) = false /\
+  match Metainfo.build idb idb [] (opts_of MetainfoProofs.ex_opts false t) (content_of t) with
+  | Some v => load (encode v) = None
+  | None => False
+  end.
+Proof. exact ex_needs_i64_length. Qed.
+
+Print Assumptions c02_e2e_same_lookup.
+Print Assumptions c02_e2e_unhex_hex.
+Print Assumptions c02_e2e_pieces_cut_at_20.
+Print Assumptions c02_e2e_loader_fuel_suffices.
+Print Assumptions c02_built_bytes_load_back.
+Print Assumptions c02_created_torrent_ok.
+Print Assumptions c02_created_bytes_load_back.
+Print Assumptions c02_created_bytes_load_back_of.
+Print Assumptions c02_written_bytes_load_back.
+Print Assumptions c02_agrees_defaults.
+Print Assumptions c02_end_to_end.
+Print Assumptions c02_end_to_end_cmd.
+Print Assumptions c02_ex_digest_hyps.
+Print Assumptions c02_ex_e2e_hyps.
+Print Assumptions c02_ex_e2e_load_back.
+Print Assumptions c02_ex_e2e_defaults.
+Print Assumptions c02_ex_needs_utf8_name.
+Print Assumptions c02_ex_needs_utf8_component.
+Print Assumptions c02_ex_needs_plain_component.
+Print Assumptions c02_ex_needs_sha1_length.
+Print Assumptions c02_ex_needs_md5_length.
+Print Assumptions c02_ex_needs_md5_bytes.
+Print Assumptions c02_ex_needs_i64_length.
